@@ -48,6 +48,9 @@ func parsePts(arg string) []rpt {
 			x := strings.SplitN(kv, "=", 2)
 			p.fields = append(p.fields, [2]string{x[0], x[1]})
 		}
+		// models.NewPoint marshals a field map sorted by name: that is the order in which the
+		// shard meets the fields, whatever order the op line lists them in
+		sort.SliceStable(p.fields, func(i, j int) bool { return p.fields[i][0] < p.fields[j][0] })
 		out = append(out, p)
 	}
 	return out
